@@ -38,14 +38,16 @@ package session
 
 // Nothing but the entry <name> of the context's own request/response headers changes.
 //@ macro otherCookiesKept(s) = forallI(h, forallS(k, (h != respCk(s) && h != reqCk(s)) || k != sessName(s) ==> jarHas[h][k] == old(jarHas[h][k]) && jarVal[h][k] == old(jarVal[h][k]) && jarAttr[h][k] == old(jarAttr[h][k])))
-//@ macro otherHeadersKept(s) = forallI(h, forallS(k, h != reqCk(s) || k != sessName(s) ==> rqHdrHas[h][k] == old(rqHdrHas[h][k]) && rqHdrVal[h][k] == old(rqHdrVal[h][k])))
+// (header names are case-insensitive: every SPELLING of the session header name denotes the header that is rewritten, so
+// "other" means another name after fasthttp's normalisation hnorm - mw_C15.spec, corrected after the conformance test)
+//@ macro otherHeadersKept(s) = forallI(h, forallS(k, h != reqCk(s) || hnorm(k) != hnorm(sessName(s)) ==> rqHdrHas[h][k] == old(rqHdrHas[h][k]) && rqHdrVal[h][k] == old(rqHdrVal[h][k])))
 
 // setSession: tells the client the id of this session (s.id), under the configured name and with the configured
 // attributes. Lifetime: Max-Age = whole seconds of the idle timeout and Expires = now + idle timeout, or neither for a
 // session-only cookie.
 //@ func (*Session).setSession
 //@   requires has-config: s.ctx == nil || s.config != nil
-//@   modifies rqHdrHas, rqHdrVal, outHdr, outHdrSet, jarHas, jarVal, jarAttr, ckKey, ckVal, ckAttr, jcPath, jcExp, jcPooled
+//@   modifies rqHdrHas, rqHdrVal, rhLine, rhUA, outHdr, outHdrSet, jarHas, jarVal, jarAttr, ckKey, ckVal, ckAttr, jcPath, jcExp, jcPooled
 //@   atcall @fasthttp.(*RequestHeader).SetBytesV: request-header-gets-the-id: h == reqCk(s) && key == sessName(s) && str(value) == s.id
 //@   atcall @fasthttp.(*ResponseHeader).SetBytesV: response-header-gets-the-id: key == sessName(s) && str(value) == s.id && called(@fasthttp.(*RequestHeader).SetBytesV)
 //@   atcall @fasthttp.(*Cookie).SetMaxAge: session-only-no-max-age: !s.config.CookieSessionOnly
@@ -68,7 +70,7 @@ package session
 // delSession: tells the client to drop the session id and removes it from the request.
 //@ func (*Session).delSession
 //@   requires has-config: s.ctx == nil || s.config != nil
-//@   modifies rqHdrHas, hdrCnt, rhLine, jarHas, jarVal, jarAttr, ckKey, ckVal, ckAttr, jcPath, jcExp, jcPooled
+//@   modifies rqHdrHas, hdrCnt, hdrVal, rhLine, rhUA, jarHas, jarVal, jarAttr, ckKey, ckVal, ckAttr, jcPath, jcExp, jcPooled
 //@   atcall @fasthttp.(*RequestHeader).Del: request-header-removed: h == reqCk(s) && key == sessName(s)
 //@   atcall @fasthttp.(*ResponseHeader).Del: response-header-removed: key == sessName(s) && called(@fasthttp.(*RequestHeader).Del)
 //@   atcall @fasthttp.(*RequestHeader).DelCookie: request-cookie-removed: h == reqCk(s) && key == sessName(s)
@@ -79,5 +81,5 @@ package session
 //@   ensures withdrawn: s.ctx != nil ==> announcedDead(s)
 //@   ensures no-context-no-effect: s.ctx == nil ==> jarHas == old(jarHas) && jarVal == old(jarVal) && jarAttr == old(jarAttr) && hdrCnt == old(hdrCnt) && rqHdrHas == old(rqHdrHas)
 //@   ensures other-cookies-kept: otherCookiesKept(s)
-//@   ensures other-request-headers-kept: forallI(h, forallS(k, h != reqCk(s) || k != sessName(s) ==> rqHdrHas[h][k] == old(rqHdrHas[h][k])))
+//@   ensures other-request-headers-kept: forallI(h, forallS(k, h != reqCk(s) || hnorm(k) != hnorm(sessName(s)) ==> rqHdrHas[h][k] == old(rqHdrHas[h][k])))
 //@   ensures only-own-response-header: forallS(k, k != sessName(s) ==> hdrCnt[k] == old(hdrCnt[k]))
